@@ -9,12 +9,16 @@ import (
 // {a,b} (right-hand sides of length <= maxLen, every symbol a solver choice), the set
 // CalculateCanTerminate reports is exactly the set of unproductive nonterminals and
 // IsEpsilonClosure is exactly the set of nullable nonterminals (least fixpoints).
-func VerifFixpoints(R, maxLen int) {
+func VerifFixpoints(R, maxLen, nameMode int) {
 	g := NewGrammar()
 	g.GenStartSymbol()
 	dollar := symbol.NewSymbol(1, "$")
 	g.InsertNewSymbol(dollar)
 	names := []string{"a", "b", "X", "Y", "Z"}
+	if nameMode == 1 {
+		// the user's start symbol may carry the default name, which the augmented symbol has too
+		names[2] = "start"
+	}
 	var all []*symbol.Symbol
 	for i, n := range names {
 		s := symbol.NewSymbol(uint(i+2), n)
